@@ -3,7 +3,7 @@
 cd /verif
 CHECKS=${@:-$(python3 -c "import json; print(' '.join(c['property_id'] for c in json.load(open('MANIFEST.json'))['checks']))")}
 OUT=seeded/matrix.tsv
-for s in seeded/C*_[srtuvw][0-9]*/; do
+for s in seeded/C*_[a-z][0-9]*/; do
   n=$(basename $s)
   D=$(mktemp -d /tmp/mutrepo-XXXXXX); cp -r /repo/include $D/include
   (cd $D && patch -s -p1 < /verif/$s/patch.diff) || { echo "$n	-	patch-failed" >> $OUT; rm -rf $D; continue; }
